@@ -8,17 +8,28 @@ import lib, elem
 from lib import Report, qlit, qseq
 
 PID = 'C01'
-IMPORTS = 'QcField Sums Series'
-DEFS = ''
+IMPORTS = 'QcField QciField Sums Series'
+DEFS = '''
+(* complex coefficients: the same field-generic recurrences run over the Gaussian rationals Q(i) (QciField.v) *)
+Definition ci (a b : Qc) : Qci := MkQci a b.
+Definition qci_close (tol : Qc) (a b : Qci) : bool :=
+  Qc_leb (Qc_abs (Qcminus (re a) (re b))) (Qcmult tol (Qcplus 1%Qc (Qcplus (Qc_abs (re b)) (Qc_abs (im b))))) &&
+  Qc_leb (Qc_abs (Qcminus (im a) (im b))) (Qcmult tol (Qcplus 1%Qc (Qcplus (Qc_abs (re b)) (Qc_abs (im b))))).
+Fixpoint qci_allclose (tol : Qc) (a b : seq Qci) : bool :=
+  match a, b with [::], [::] => true | x :: a', y :: b' => qci_close tol x y && qci_allclose tol a' b' | _, _ => false end.
+'''
 TOL = Fraction(1, 2 ** 26)
 
 
 def build_terms(algopy, case):
     """run the implementation on one case; returns (terms, metas, exc)"""
     fn = elem.FUNCS[case['fn']]
+    cx = 'data_im' in case
     data = numpy.array(case['data'], dtype=float)
+    if cx:
+        data = data + 1j * numpy.array(case['data_im'], dtype=float)
     D, P = data.shape[:2]
-    x = algopy.UTPM(data.copy())
+    x = algopy.UTPM(lib.relayout(data.copy(), case.get('layout', 'C')))      # Fortran-ordered / transposed coefficient arrays as well
     try:
         y = elem.call_impl(algopy, fn, case['route'], x, case['prm'])
         ydata = elem.result_data(algopy, y, (D, P))
@@ -26,7 +37,7 @@ def build_terms(algopy, case):
         return [], [], e
     if ydata.shape != data.shape:
         return [], [], TypeError('result shape %s != argument shape %s' % (ydata.shape, data.shape))
-    if numpy.iscomplexobj(ydata) or not numpy.all(numpy.isfinite(ydata)):
+    if (numpy.iscomplexobj(ydata) and not cx) or not numpy.all(numpy.isfinite(ydata)):
         return [], [], ValueError('non-finite or complex result for real input')
     n = int(numpy.prod(data.shape[2:], dtype=int))
     terms, metas = [], []
@@ -34,6 +45,11 @@ def build_terms(algopy, case):
         for e in range(n):
             xs = elem.series_of(data, p, e)
             ys = elem.series_of(ydata, p, e)
+            if cx:
+                model = fn.model([complex(v) for v in xs], complex(xs[0]), case['prm'])
+                terms.append('(qci_allclose %s %s %s)' % (qlit(TOL), model, elem.qseq([complex(v) for v in ys])))
+                metas.append(dict(p=p, e=e, xs=[[float(numpy.real(v)), float(numpy.imag(v))] for v in xs], impl=[[float(numpy.real(v)), float(numpy.imag(v))] for v in ys], complex=True))
+                continue
             model = fn.model([lib.frac(v) for v in xs], xs[0], case['prm'])
             terms.append('(Qc_allclose %s %s %s)' % (qlit(TOL), model, qseq([lib.frac(v) for v in ys])))
             metas.append(dict(p=p, e=e, xs=[float(v) for v in xs], impl=[float(v) for v in ys]))
@@ -73,7 +89,7 @@ def main(tier, seed, only=None):
                 'dyadics, call route algopy.f / numpy.f (ufunc dispatch) / UTPM.f / operator; one evaluation = one (direction, element) '
                 'series; non-trivial = D>=2 and some higher coefficient non-zero; distinct by (function, parameters, series)')
     rep.assumptions = ['base values f(x0) (and f^(n)(x0) for gammaln/psi/polygamma/hyperu) are taken from NumPy/SciPy, not proved',
-                       'real coefficients only in the model (complex128 inputs are not generated)',
+                       'complex coefficients: base points off the real axis with |Im| in {1/2, 1, 5/4}; the functions of COMPLEX_OK (elementary functions and integer powers) only',
                        'relative tolerance 2^-26 between exact model and float64 implementation']
     rep.theorems()
     rng = lib.rng_for(seed, PID)
@@ -84,6 +100,20 @@ def main(tier, seed, only=None):
     for nm in names:
         for _ in range(per_fn):
             cases.append(elem.gen_case(rng, elem.FUNCS[nm], Dmax=Dmax))
+            cases[-1]['layout'] = rng.choice(['C', 'C', 'F', 'T'])
+        if nm in elem.COMPLEX_OK:
+            # complex base points off the real axis (inside the domain of analyticity, outside the unit disk as well), complex higher coefficients
+            for _ in range(max(2, min(per_fn // 3, 12))):
+                c = elem.gen_case(rng, elem.FUNCS[nm], Dmax=min(Dmax, 5), Pmax=2)
+                re = numpy.array(c['data'], dtype=float)
+                im = numpy.array([rng.randint(-8, 8) / 8 for _ in range(re.size)]).reshape(re.shape)
+                for p_ in range(re.shape[1]):
+                    for idx in numpy.ndindex(*re.shape[2:]):
+                        z0 = elem.gen_x0_complex(rng, elem.FUNCS[nm])
+                        re[(0, p_) + idx] = z0.real; im[(0, p_) + idx] = z0.imag
+                c['data'] = re.tolist(); c['data_im'] = im.tolist(); c['layout'] = rng.choice(['C', 'F'])
+                rep.count('complex coefficients', nm)
+                cases.append(c)
     run_and_judge(rep, algopy, cases)
     return rep.finish()
 
@@ -106,14 +136,14 @@ def run_and_judge(rep, algopy, cases):
     uneval = 0
     for (ci, m), v, t in zip(owners, verdicts, all_terms):
         case = cases[ci]
-        nontriv = case['D'] >= 2 and any(c != 0 for c in m['xs'][1:])
-        rep.case((case['fn'], json.dumps(case['prm'], sort_keys=True), tuple(m['xs'])), nontriv,
+        nontriv = case['D'] >= 2 and any((c != 0 and c != [0.0, 0.0]) for c in m['xs'][1:])
+        rep.case((case['fn'], json.dumps(case['prm'], sort_keys=True), json.dumps(m['xs'])), nontriv,
                  sample=dict(fn=case['fn'], prm=case['prm'], route=case['route'], x=m['xs'], y=m['impl']))
         if v is None:
             uneval += 1
         elif not v:
             fn = elem.FUNCS[case['fn']]
-            res = taylor_residual(fn, case['prm'], m['xs'], m['impl'])
+            res = None if m.get('complex') else taylor_residual(fn, case['prm'], m['xs'], m['impl'])
             rep.violation('corr:%s:%s' % (case['fn'], case['route']),
                           '%s: implementation coefficients differ from the proved recurrence model' % case['fn'],
                           dict(kind='series', fn=case['fn'], prm=case['prm'], route=case['route'], D=case['D'], x=m['xs'], impl=m['impl'],
